@@ -899,7 +899,7 @@ End MainLoop.
 (* the oracle for Python's parser does not matter to the check                                  *)
 (* ------------------------------------------------------------------------------------------- *)
 
-Definition pp_yes : pyparse := mkPyparse (fun _ => true) (fun _ => None).
+Definition pp_yes : pyparse := mkPyparse (fun _ => true) (fun _ => None) (fun _ => 0).
 
 Lemma body_step_mono : forall pp xs L i line st cp r,
   ParseMain.body_step pp xs L i line st cp = POk r -> ParseMain.body_step pp_yes xs L i line st cp = POk r.
